@@ -27,6 +27,7 @@ REPRS = [
     ("packed+pragma+noguard", ["-fuse-packed-enums", "-fuse-pragma-once", "-fno-use-cplusplus-guard"]),
     ("indirect+zerolen", ["-findirect-start-ptr", "-fzero-len-input-support"]),
     ("collapse2", ["-fcollapse-transition-ranges", "--collapsed-range-length", "2"]),
+    ("collapse-default", ["-fcollapse-transition-ranges"]),
     ("dynamic+u8+indirect", ["-fallocate-str-space-dynamic", "-fstrings-as-u8", "-findirect-start-ptr"]),
     ("unsafe-index", ["-funsafe-string-indexing"]),
     ("unsafe-index+u8", ["-funsafe-string-indexing", "-fstrings-as-u8"]),
